@@ -137,13 +137,14 @@ def multiorder (h : Net) (orders : List Nat) (weights : List Rat) (rescale : Boo
       let N := h.nodes.length
       .ok ((List.zip (Ls.map (·.1)) (List.zip Ks weights)).foldl multiStep (zerosQ N N), h.nodes)
 
-/-! ### normalised hypergraph Laplacian (Zhou, Huang, Schölkopf 2006): the rational pieces
+/-! ### normalised hypergraph Laplacian: the rational pieces
 
-  L = I − Dv^{-1/2} · M · Dv^{-1/2} with M = H W De⁻¹ Hᵀ and Dv the *weighted* degree
-  d(v) = Σ_e w(e) h(v, e) of the reference (this is the repaired behaviour, see
-  proposed_fixes/C12-normalized-weighted-degree.diff: the unchanged code uses the unweighted degree also
-  when `weighted=True`, which is neither the textbook matrix nor positive semidefinite).  The harness
-  compares the implementation entry-wise with δ_ik − M_ik / sqrt(Dv_i · Dv_k). -/
+  The code computes L = I − Dv^{-1/2} · M · Dv^{-1/2} with M = H W De⁻¹ Hᵀ and `Dv = degree_matrix(H)`, the
+  *unweighted* vertex degree, also when `weighted=True`.  The model describes the code as it is.  (The
+  reference, Zhou, Huang, Schölkopf 2006, uses the weighted degree d(v) = Σ_e w(e) h(v, e); with
+  `weighted=True` and weights other than 1 the code's matrix is neither the textbook matrix nor positive
+  semidefinite — known finding of C12, see known_findings/C12.json and Props/C12.lean.)  The harness compares
+  the implementation entry-wise with δ_ik − M_ik / sqrt(Dv_i · Dv_k). -/
 
 structure Norm where
   m : QMat
@@ -151,7 +152,6 @@ structure Norm where
   rows : List PyId
   deriving Repr
 
-def dotQ (a : List Int) (w : List Rat) : Rat := (List.zipWith (fun (x : Int) (y : Rat) => (x : Rat) * y) a w).sum
 /-- Σ_j a_j · c_j · b_j -/
 def dot3 (a : List Int) (c : List Rat) (b : List Int) : Rat :=
   (List.zipWith (fun (p : Rat) (z : Int) => p * (z : Rat))
@@ -167,11 +167,9 @@ def normalized (h : Net) (weighted : Bool) (ws : List (Option Rat)) : Res Norm :
     let De := (transpose I.mat).map List.sum
     if De.any (· == 0) then .undefined                                               -- 1 / De
     else
-      let Dv := I.mat.map (fun r => dotQ r w)
-      if Dv.any (fun d => decide (d ≤ 0)) then .errLib
-      else
-        let wde := List.zipWith (fun x (y : Int) => x / (y : Rat)) w De
-        .ok ⟨I.mat.map (fun ri => I.mat.map (fun rk => dot3 ri wde rk)), Dv, I.rows⟩
+      let Dv : List Rat := I.mat.map (fun r => ((r.sum : Int) : Rat))                -- degree_matrix(H)
+      let wde := List.zipWith (fun x (y : Int) => x / (y : Rat)) w De
+      .ok ⟨I.mat.map (fun ri => I.mat.map (fun rk => dot3 ri wde rk)), Dv, I.rows⟩
 
 /-! ### adjacency tensor -/
 
